@@ -48,7 +48,8 @@ BOUNDS = {
              "GRAPH(5) all 1024, lattice, LIGHT plan (subsets <=2, modes one/length/dict); SURF(<=4) all 66 x {lattice,generic} MID; "
              "SURF(5) 410 triangle complexes lattice LIGHT; TET(<=5) 27 generic LIGHT; grids 2..4 x 2..4 x {tri,tri2,quad,mixed} "
              "(every single target, every pair as vertex set, border); 92 manifold sub-complexes of the 3x3 tri grid; every "
-             "weighting over {0,1,2,5} of every graph on <=3 vertices and over {0,1,5} on 4 vertices (4223 weighted graphs)",
+             "weighting over {0,1,2,5} of every graph on <=3 vertices and over {0,1,5} on 4 vertices (4223 weighted graphs; whole "
+             "component as dict and Attribute, every vertex set of size <=2)",
     "thorough": "every start vertex of: GRAPH(<=4) x {lattice,generic} FULL; GRAPH(5) 1024 lattice MID (subsets <=3, 4 modes) + "
                 "generic LIGHT; SURF(<=4) 66 lattice FULL + generic MID; SURF(5) all 2632 tri+quad lattice LIGHT, 410 triangle "
                 "complexes lattice MID + generic LIGHT; 28 six-vertex triangle classes MID; TET(<=5) 27 x {generic,lattice} MID; grids "
@@ -98,14 +99,14 @@ STD4 = ["one", "length", "dict", "attr"]
 # p2p_*/vset_*: target forms for one target / several targets and the subset-size bound; modes = weight modes (every
 # single target, the whole component and every vertex set are asked in each of them); minor = weight modes in which
 # the proper multi-target subsets of shortest_path are asked too; export = weight modes in which
-# export_path_mesh=True is run as well (False is always run)
+# export_path_mesh=True is run as well (False is always run; no_vset_export: not for shortest_path_to_vertex_set)
 PLAN_FULL = {"p2p_sub": 3, "vset_sub": 3, "p2p_1": ["int", "list", "set", "tuple", "frozenset", "list_dup"],
              "p2p_k": ["list", "rlist", "set", "tuple"], "vset_1": ["list", "set", "tuple", "frozenset", "list_dup"],
              "vset_k": ["list", "rlist", "set", "tuple"], "modes": ALL5, "minor": ALL5, "export": ["length", "attr_dense"]}
 PLAN_MID = {"p2p_sub": 3, "vset_sub": 3, "p2p_1": ["int", "list", "set"], "p2p_k": ["list", "set"],
             "vset_1": ["list", "set"], "vset_k": ["list", "set"], "modes": STD4, "minor": STD4, "export": ["length"]}
 PLAN_LIGHT = {"p2p_sub": 2, "vset_sub": 2, "p2p_1": ["int"], "p2p_k": ["set"], "vset_1": ["list"], "vset_k": ["list"],
-              "modes": ["one", "length", "dict"], "minor": ["length"], "export": ["length"]}
+              "modes": ["one", "length", "dict"], "minor": ["length"], "export": ["length"], "no_vset_export": True}
 PLAN_WNAMED = {"p2p_sub": 1, "vset_sub": 2, "p2p_1": ["int"], "p2p_k": ["set"], "vset_1": ["list"], "vset_k": ["list"],
                "modes": ["one", "length"], "minor": ["one", "length"], "export": ["length"]}
 PLAN_GRID = {"p2p_sub": 1, "vset_sub": 2, "p2p_1": ["int"], "p2p_k": ["list"], "vset_1": ["set"], "vset_k": ["list"],
@@ -268,6 +269,7 @@ def _explain(fail_feats, executed):
 class Collector:
     def __init__(self):
         self.executed = {}
+        self.masked = {}
         self.fails = {}
 
     def ran(self, callee, feats):
@@ -283,7 +285,10 @@ class Collector:
             g["best"] = size_key
             g["detail"] = detail_fn()
 
-    def via(self, sub, callee, kind, other):
+    def via(self, sub, callee, kind, other, feats):
+        # the query's own verdict is unknown (it failed earlier, inside the more basic entry point): it must count
+        # neither as failing nor as passing when the classes of the other failures of `other` are worked out
+        self.masked.setdefault(other, set()).add(feats)
         g = self.fails.get((sub, callee, kind))
         if g is not None:
             g.setdefault("via", {})
@@ -293,7 +298,7 @@ class Collector:
         for key in sorted(self.fails):
             sub, callee, kind = key
             g = self.fails[key]
-            cls = _explain(g["feats"], self.executed.get(callee, set()))
+            cls = _explain(g["feats"], self.executed.get(callee, set()) - (self.masked.get(callee, set()) - g["feats"]))
             d = dict(g["detail"])
             d["occurrences_in_task"] = g["count"]
             if g.get("via"):
@@ -542,7 +547,7 @@ def _query(ctx, mc, callee, start, form, T, mode, table, export, reach):
             base.setdefault(start, set()).add(sig)
         elif sig in base.get(start, ()):
             # shortest_path itself fails in exactly this way for this mesh/start/weights: one defect, reported once
-            col.via("C09.p2p.answers", "shortest_path", kind, callee)
+            col.via("C09.p2p.answers", "shortest_path", kind, callee, feats)
             rep.count("failures_identical_to_shortest_path_failure_on_same_input")
             return
         fail("answers", kind, {"exception": out.exc, "message": out.msg})
@@ -705,7 +710,7 @@ def sweep_mesh(ctx, mc, plan, customs):
                         if ds[0] > 0 and ds[0] != ds[-1]:
                             rep.flag("set:members_at_different_positive_distances")
                     for form in plan["vset_1" if k == 1 else "vset_k"]:
-                        for ex in exports:
+                        for ex in ((False,) if plan.get("no_vset_export") else exports):
                             _query(ctx, mc, "shortest_path_to_vertex_set", s, form, T, mode, table, ex, reach)
             # ---- border
             if mc.kind == "surface":
@@ -840,7 +845,7 @@ def _run_wgraphs(task, ctx):
                     for t in R:
                         _query(ctx, mc, "shortest_path", s, "int", (t,), "dict", td, False, "all")
                 # sets: every subset up to size 3 (only the pairs in the light plan)
-                for k in ((2,) if light else (1, 2, 3)):
+                for k in ((2,) if light else (1, 2) if level == "lean" else (1, 2, 3)):
                     for T in itertools.combinations(range(n), k):
                         nreach = sum(1 for t in T if Ds[t] != math.inf)
                         if nreach == 0:
